@@ -533,6 +533,10 @@ def run(p, report, tier):
     for o in _sub3.obligations:
         if o.rule == "R3":
             report.add("R10.13", o.entity, o.construct, o.loc, o.ok, detail=o.detail, nontrivial=False)
+    report.rule("R10.14", "a chunk is simulated as its instances one after the other: the strategy hands all utilities of the "
+                "chunk to ONE query_by_utility call; per-candidate calls against the committed state make the grants depend "
+                "on how the stream is cut into chunks (shared with C04 R4.11)", floor=2)
+    c04.check_one_consultation_per_chunk(p, report, "R10.14")
     # ---------------- R10.12 premises shared with C04
     report.rule("R10.12", "what update commits is what the budget manager built for the configured budget accounts: the "
                 "manager is built once and with self.budget on the query path and on the update path alike, query and "
